@@ -197,12 +197,13 @@ func (e *c09Env) runWS(c c09Case) *Violation {
 	// the sentinel may overtake slower handlers: wait for the stragglers (bounded), then use a second sentinel + grace to catch extras
 	deadline := time.Now().Add(5 * time.Second)
 	for nGot < nWant && time.Now().Before(deadline) {
-		o, v, ok := readOne(200 * time.Millisecond)
+		// (one read with the whole remaining allowance: after a timed-out read the connection object is unusable)
+		o, v, ok := readOne(time.Until(deadline))
 		if v != nil {
 			return v
 		}
 		if !ok {
-			continue
+			break
 		}
 		if o.idNull {
 			nNull++
